@@ -687,6 +687,9 @@ var c07fixed = []string{
 	"a: &a [{<<: {k: *a}}]\n",
 	"a: &a {k: 1}\nb: &b {c: {<<: [*a, *b]}}\n",
 	"a: &a {p: {<<: *b}}\nb: &b {q: {<<: *a}}\n",
+	// an alias used as a key whose anchored scalar is spelled non-canonically: the key is the canonical one (same as writing the scalar there)
+	"k: &k 0x10\nd: &d {16: merged, mm: x}\nm: {<<: *d, *k : own}\n",
+	"t: &t True\nf: &f 1.5\nn: {*t : 1, *f : 2, true: 3}\n",
 	// all-string documents with merges (also decoded into *MapSS, twice)
 	"k: v1\n<<: {a: v2, c: v3}\nz: v4\n",
 	"<<: [{a: v1, c: v2}, {c: v3, d: v4}]\na: v5\n",
@@ -788,7 +791,7 @@ func init() {
 		Rule: "documents are programs of choices over an anchor/alias/merge grammar: 2-4 top-level entries, each a scalar / alias / mapping / sequence, optionally anchored with one of three names " +
 			"(names may be reused, i.e. redefined); mappings have explicit keys a, b with nested nodes, an alias-as-key entry and three merge slots (before, between, after the explicit keys), each merge an alias, " +
 			"a sequence of aliases in either order, a nested sequence, an inline mapping or a mix; aliases may point backwards, forwards (rejected by the YAML parser and skipped) or to enclosing nodes " +
-			"(self / mutual cycles through values, sequences, keys and merges); enumerated with <=4 (quick) / <=5 (thorough) deviations from a default document that already anchors, aliases and merges, plus 35 hand-written shapes (value cycles closing through values, sequences, keys and merges of anchored ancestors; quoted and tagged `<<` keys, which are ordinary keys) and layered merges of 2..80 layers (each layer merging the two before it / the one before it twice), which must decode within 90 s (they take milliseconds). " +
+			"(self / mutual cycles through values, sequences, keys and merges); enumerated with <=4 (quick) / <=5 (thorough) deviations from a default document that already anchors, aliases and merges, plus 37 hand-written shapes (value cycles closing through values, sequences, keys and merges of anchored ancestors; quoted and tagged `<<` keys, which are ordinary keys) and layered merges of 2..80 layers (each layer merging the two before it / the one before it twice), which must decode within 90 s (they take milliseconds). " +
 			"ordered.DecodeYAML, yaml.Unmarshal into *ordered.MapSA and - for documents whose top-level values are all strings - into *ordered.MapSS (stand-alone, as a struct field, and a second document of the same shape with other values into the same map) are compared with a two-phase reference (pure per-mapping merge resolution, then containment-cycle detection and expansion) on " +
 			"yaml.v3's node graph: content and order, independent copies (no shared mapping/sequence objects), value cycle => error, merge cycle tolerated, no panic / fatal crash / hang. " +
 			"Non-trivial = the document contains at least one alias and was compared in full (content, order, independence). Documents whose merge cycle runs through a sequence or several mappings, or that repeat an explicit key, are only checked for no panic / crash / hang.",
